@@ -160,6 +160,21 @@ let cmd_aligns h1 t1 h2 t2 lm rm =
          { ht_head = z_of_string h2; ht_tape = tape_of_field t2 }
          (z_of_string lm) (z_of_string rm))
 
+let run_ops tape_f ops_f =
+  let t = ref (tape_of_field tape_f) in
+  (if ops_f <> "" then
+     List.iter (fun o -> match split ',' o with
+         | [sh; co; sk] -> t := fst (step !t (sh = "1") (n_of_string co) (sk = "1"))
+         | _ -> failwith "bad op") (split ';' ops_f));
+  !t
+
+let cmd_tapeeq ta oa tb ob =
+  let a = run_ops ta oa and b = run_ops tb ob in
+  let un t = if unroll_small t
+    then field_of_nlist (unroll_span t.lspan) ^ "/" ^ field_of_nlist (unroll_span t.rspan) else "big" in
+  (* a derived Hash agrees with derived == on equal values: the model answers the hash field with == *)
+  b2s (tape_eqb a b) ^ "|" ^ b2s (tape_eqb a b) ^ "|" ^ field_of_tape a ^ " " ^ un a ^ "|" ^ field_of_tape b ^ " " ^ un b
+
 let cmd_ops prog n =
   String.concat ";" (List.map (fun ((sh, co), sk) -> b2s sh ^ "," ^ string_of_n co ^ "," ^ b2s sk)
                        (quick_ops_init (comp_of_text prog) (n_of_string n)))
@@ -185,6 +200,7 @@ let dispatch (fields : string list) : string option =
   | ["cert"; prog; lim] -> Some (cmd_cert prog lim)
   | ["ops"; prog; n] -> Some (cmd_ops prog n)
   | ["tape"; mode; tp; ops] -> Some (cmd_tape mode tp ops)
+  | ["tapeeq"; ta; oa; tb; ob] -> Some (cmd_tapeeq ta oa tb ob)
   | ["quick"; prog; lim] -> Some (cmd_quick prog lim)
   | ["ref"; prog; lim] -> Some (cmd_ref prog lim)
   | ["rec"; prog; lim] -> Some (cmd_rec prog lim)
